@@ -943,6 +943,8 @@ pub struct GenCfg {
     pub p_rejoin: f64,
     /// enumerate DLSettings / RxDelay of JoinAccepts systematically
     pub ja_enum: bool,
+    /// systematic receive-window table walk (C10): stride through (uplink DR, RX1 offset, RX2 DR, RxDelay)
+    pub rxwin_stride: usize,
 }
 
 pub struct Gen {
@@ -950,6 +952,7 @@ pub struct Gen {
     pub cfg: GenCfg,
     pub sent: Vec<Vec<u8>>,
     pub join_nonce: u32,
+    pub walk: usize,
 }
 
 fn rnd_vec(rng: &mut StdRng, n: usize) -> Vec<u8> {
@@ -958,7 +961,7 @@ fn rnd_vec(rng: &mut StdRng, n: usize) -> Vec<u8> {
 
 impl Gen {
     pub fn new(seed: u64, cfg: GenCfg) -> Gen {
-        Gen { rng: StdRng::seed_from_u64(seed), cfg, sent: vec![], join_nonce: 1 }
+        Gen { rng: StdRng::seed_from_u64(seed), cfg, sent: vec![], join_nonce: 1, walk: 0 }
     }
 
     fn cflist(&mut self) -> (i32, Vec<u8>) {
@@ -1188,7 +1191,54 @@ impl Gen {
         p
     }
 
+    /// C10 table walk: alternately (a) an uplink answered in RX1 by RXParamSetupReq(offset, RX2 DR, freq) +
+    /// RXTimingSetupReq(del) + LinkADRReq(DR) [+ DlChannelReq], (b) uplinks that only observe the windows
+    /// (fixed plans: scripted draws walk over the channels).
+    fn next_rxwin(&mut self, v: &View) -> Option<Op> {
+        let region = self.cfg.region.clone();
+        let fixed = region == "US915" || region == "AU915";
+        if !v.joined {
+            return Some(Op::JoinAbp { nwk: self.rng.r#gen(), app: self.rng.r#gen(), addr: self.rng.r#gen() });
+        }
+        let t = self.walk / 3;          // tuple index
+        let phase = self.walk % 3;
+        self.walk += 1;
+        let tuple = t * self.cfg.rxwin_stride.max(1);
+        if tuple >= 16 * 8 {
+            return None;
+        }
+        let dr = (tuple / 8) as u8;     // 0..15 (undefined ones are refused by the device: state unchanged)
+        let off = (tuple % 8) as u8;
+        let rx2dr: u8 = [15u8, 0, 2, 3, 5, 8, 10, 13, 6][(tuple / 3) % 9];
+        let del = (tuple % 16) as u8;
+        let mut plan = Proc { tx: "done".into(), ts: (tuple as u32 * 37) % 2000, fault: -1, ..Default::default() };
+        if phase == 0 {
+            let (lo, hi) = band(&region);
+            let f = freq3([lo, hi, lo + 300_000, (lo + hi) / 2 / 100 * 100][tuple % 4]);
+            let mut fopts = vec![0x05, (off << 4) | rx2dr, f[0], f[1], f[2], 0x08, del];
+            // LinkADRReq: data rate, keep power, all channels on
+            fopts.extend_from_slice(&[0x03, (dr << 4) | 0x0f, 0xff, 0xff, 0x60]);
+            if !fixed && tuple % 5 == 0 {
+                // fits only without the RXTimingSetupReq
+                fopts.truncate(5);
+                let df = freq3(lo + 100_000 * ((tuple as u32) % 7));
+                fopts.extend_from_slice(&[0x0A, (tuple % 3) as u8, df[0], df[1], df[2]]);
+                fopts.extend_from_slice(&[0x03, (dr << 4) | 0x0f, 0xff, 0xff, 0x60]);
+            }
+            let (nwk, app, addr) = v.keys.unwrap();
+            let net = Net { nwk, app, addr, sent: vec![] };
+            let n = v.fcnt_down.map(|x| x + 1).unwrap_or(0);
+            let b = net.data(n, false, false, &fopts, -1, &[], false, false);
+            plan.rx1.push(Frame { bytes: b, snr: 3, intent: format!("auth:rxwin:dr={dr}:off={off}:rx2={rx2dr}:del={del}") });
+        }
+        let draws = if fixed { vec![(tuple as u32 * 3 + phase as u32 * 17) % 64] } else { vec![(tuple + phase) as u32] };
+        Some(Op::Send { port: 2, data: vec![phase as u8], confirmed: phase == 2 && tuple % 2 == 0, draws, plan })
+    }
+
     pub fn next(&mut self, v: &View) -> Option<Op> {
+        if self.cfg.rxwin_stride > 0 {
+            return self.next_rxwin(v);
+        }
         if v.steps >= self.cfg.max_steps {
             return None;
         }
@@ -1330,6 +1380,7 @@ pub fn vh_mac(a: &Args) {
                 let mut g = Gen::new(seed, GenCfg {
                     region: region.clone(), front: fr.into(), classc, max_steps: steps, appkey: rng.r#gen(),
                     p_downlink, p_cmds, p_reject, p_fault, p_rejoin, ja_enum,
+                    rxwin_stride: if profile == "rxwin" { a.get_usize("stride", if a.thorough { 1 } else { 3 }) } else { 0 },
                 });
                 let mut f = |v: &View| g.next(v);
                 if profile != "tx" {
